@@ -182,6 +182,25 @@ class CoopRLock:
         self.release()
 
 
+class PV:
+    """a value whose equality is decided by Python-level code (most user-defined values): comparing a cache with a dict of such
+    values runs this method once per key, and each of its instructions is a pre-emption point like those inside cacheutils"""
+    __slots__ = ('v',)
+
+    def __init__(self, v):
+        self.v = v
+
+    def __eq__(self, other):
+        ov = other.v if isinstance(other, PV) else other
+        return self.v == ov
+
+    def __hash__(self):
+        return hash(self.v)
+
+    def __repr__(self):
+        return 'PV(%r)' % (self.v,)
+
+
 def make_tracer(sched):
     def local_trace(frame, event, arg):
         if event == 'opcode':
@@ -189,7 +208,7 @@ def make_tracer(sched):
         return local_trace
 
     def tracer(frame, event, arg):
-        if event == 'call' and frame.f_code.co_filename == CACHE_FILE_RAW[0]:
+        if event == 'call' and (frame.f_code.co_filename == CACHE_FILE_RAW[0] or frame.f_code is PV.__eq__.__code__):
             frame.f_trace_opcodes = True
             return local_trace
         return None
@@ -258,6 +277,7 @@ _op = st.one_of(
     st.tuples(st.just('get'), _ku), st.tuples(st.just('del'), _ku), st.tuples(st.just('pop'), _ku),
     st.tuples(st.just('setdefault'), _ku, _v), st.tuples(st.just('update'), _k, _k, _v),
     st.tuples(st.just('update_kw'), _k, _k, _v),
+    st.tuples(st.just('eq'), st.lists(st.tuples(_k, _v).map(list), min_size=1, max_size=3), st.sampled_from(['eq', 'eq', 'ne'])),
     st.tuples(st.just('clear')), st.tuples(st.just('copy')), st.tuples(st.just('popitem')),
     st.tuples(st.just('contains'), _ku), st.tuples(st.just('len')),
 ).map(list)
@@ -290,7 +310,28 @@ def _bulk_case(draw):
     }
 
 
+@st.composite
+def _torn(draw):
+    """one reader against a writer that changes two keys: a read that is not atomic can see the first key old and the second
+    key new (or the reverse) - a combination the cache never held"""
+    x0, x1 = draw(_v), draw(_v)
+    y0, y1 = (x0 + 1 + draw(st.integers(0, 2))) % 4, (x1 + 1 + draw(st.integers(0, 2))) % 4
+    mixed = draw(st.sampled_from([[[0, x0], [1, y1]], [[0, y0], [1, x1]], [[1, y1], [0, x0]]]))
+    reader = draw(st.sampled_from([['eq', mixed, 'eq'], ['eq', mixed, 'ne'], ['copy'], ['eq', [[0, x0], [1, x1]], 'eq']]))
+    writer = draw(st.sampled_from([[['set', 0, y0], ['set', 1, y1]], [['update', 0, 1, y0]], [['set', 1, y1], ['set', 0, y0]],
+                                   [['del', 0], ['set', 0, y0], ['set', 1, y1]]]))
+    progs = [[reader], writer]
+    if draw(st.booleans()):
+        progs.reverse()
+    return {'sub': 'sched', 'cls': draw(st.sampled_from(['LRI', 'LRU'])), 'max_size': draw(st.sampled_from([2, 3])),
+            'on_miss': 'none', 'init': [[0, x0], [1, x1]], 'programs': progs, 'multi': []}
+
+
 def strat(tier):
+    return st.integers(0, 7).flatmap(lambda i: _torn() if i == 0 else _strat_general(tier))
+
+
+def _strat_general(tier):
     return st.fixed_dictionaries({
         'sub': st.just('sched'),
         'cls': st.sampled_from(['LRI', 'LRU']),
@@ -340,6 +381,9 @@ def apply_real(c, op):
         if name == 'update':
             c.update({K(op[1]): op[3], K(op[2]): op[3] + 10})
             return ('ok', None)
+        if name == 'eq':
+            other = {K(k): PV(v) for k, v in op[1]}
+            return ('ok', (c != other) if len(op) > 2 and op[2] == 'ne' else (c == other))      # ONE cache operation
         if name == 'update_kw':
             # a positional source and keyword arguments in ONE call
             c.update({K(op[1]): op[3]}, **{K(op[2]): op[3] + 10})
@@ -402,6 +446,9 @@ def apply_model(ref, op, observed):
             return ('ok', od.pop(K(op[1]), 'dflt'))
         if name == 'setdefault':
             return ('ok', ref.setdefault(K(op[1]), op[2]))
+        if name == 'eq':
+            same = dict(od) == {K(k): v for k, v in op[1]}
+            return ('ok', (not same) if len(op) > 2 and op[2] == 'ne' else same)
         if name == 'update_kw':
             ref.set(K(op[1]), op[3])
             ref.set(K(op[2]), op[3] + 10)
@@ -678,7 +725,7 @@ def run(case):
     if base is None:
         return out
     steps = base['steps']
-    if steps == 0 and any(op[0] in ('set', 'getitem', 'get', 'del', 'pop', 'setdefault', 'update', 'update_kw', 'clear', 'copy', 'popitem')
+    if steps == 0 and any(op[0] in ('set', 'getitem', 'get', 'del', 'pop', 'setdefault', 'update', 'update_kw', 'eq', 'clear', 'copy', 'popitem')
                           for p in progs for op in p):
         raise HarnessError('no per-opcode trace events although the programs run Python-level cache methods')
     if steps == 0:
@@ -719,7 +766,7 @@ def run(case):
     for p in progs:
         ks = set()
         for op in p:
-            if op[0] in ('clear', 'copy', 'popitem', 'len'):
+            if op[0] in ('clear', 'copy', 'popitem', 'len', 'eq'):
                 ks.add('*')
             else:
                 ks.add(op[1])
@@ -758,7 +805,7 @@ def on_miss(key):
     c = state['cache']
     v1 = c.get('base')
     state['e1'].set()
-    state['e2'].wait(0.4)
+    state['e2'].wait(float(sys.argv[3]))
     v2 = c.get('base')
     return (v1, v2)
 cache = cls(max_size=8, on_miss=on_miss)          # built before this program imports threading
@@ -774,31 +821,53 @@ def b():
     cache['base'] = 2
     state['e2'].set()
 ta, tb = threading.Thread(target=a), threading.Thread(target=b)
-ta.start(); tb.start(); ta.join(10); tb.join(10)
+ta.start(); tb.start(); ta.join(40); tb.join(40)
 print(json.dumps({'a': res.get('a'), 'base': cache.get('base'), 'alive': ta.is_alive() or tb.is_alive()}))
 '''
 
 
 def strat_fresh(tier):
-    return st.fixed_dictionaries({'sub': st.just('fresh'), 'cls': st.sampled_from(['LRI', 'LRU'])})
+    # 'hold': how long thread A stays inside the cache (its miss handler) while B wants in; the long one exceeds every plausible
+    # "give up waiting for the lock after a few seconds" timeout
+    return st.fixed_dictionaries({'sub': st.just('fresh'), 'cls': st.just('all'), 'hold': st.just(0)})
 
 
 def run_fresh(case):
-    import json
+    """a case names one (class, hold) combination, or 'all': both classes x short and long hold, run side by side"""
+    combos = [(case['cls'], case.get('hold', 0.4))] if case.get('cls') != 'all' else \
+        [(c, h) for c in ('LRI', 'LRU') for h in (0.4, 6.5)]
+    out = Outcome()
+    out.nontrivial = True
     import subprocess
     from vlib import core
-    out = Outcome()
     env = dict(os.environ, PYTHONDONTWRITEBYTECODE='1')
+    procs = [(c, h, subprocess.Popen([sys.executable, '-B', '-c', FRESH_SCRIPT, core.REPO, c, str(h)], stdout=subprocess.PIPE,
+                                     stderr=subprocess.PIPE, text=True, env=env)) for c, h in combos]
+    for c, h, pr in procs:
+        if out.ok:
+            _fresh_result(dict(case, cls=c, hold=h), pr, out)
+        else:
+            pr.kill()
+            pr.communicate()
+    out.units = len(combos)
+    return out
+
+
+def _fresh_result(case, pr, out):
+    import json
+    import subprocess
     try:
-        cp = subprocess.run([sys.executable, '-B', '-c', FRESH_SCRIPT, core.REPO, case['cls']], capture_output=True, text=True, timeout=60, env=env)
+        so, se = pr.communicate(timeout=90)
     except subprocess.TimeoutExpired:
-        return out.fail('c03.deadlock', 'fresh-interpreter probe with %s did not finish within 60 s' % case['cls'])
-    if cp.returncode != 0:
-        raise HarnessError('fresh-interpreter probe failed: %s' % (cp.stderr[-600:],))
-    r = json.loads(cp.stdout.strip().splitlines()[-1])
-    out.nontrivial = True
-    out.units = 1
+        pr.kill()
+        pr.communicate()
+        return out.fail('c03.deadlock', 'fresh-interpreter probe with %s did not finish within 90 s' % case['cls'])
+    if pr.returncode != 0 or not so.strip():
+        raise HarnessError('fresh-interpreter probe failed: %s' % (se[-600:],))
+    r = json.loads(so.strip().splitlines()[-1])
     out.label('cache_built_before_threads_exist')
+    if case.get('hold', 0.4) > 5:
+        out.label('lock_held_for_seconds')
     if r['alive']:
         return out.fail('c03.deadlock', '%s built in a fresh interpreter: the two threads did not finish (%r)' % (case['cls'], r))
     if r['a'] != [1, 1] or r['base'] != 2:
@@ -811,5 +880,5 @@ def run_fresh(case):
 SUBS = {
     'sched': Sub('sched', strat, run, quick=192, thorough=9600, quick_shards=16),
     'bulk': Sub('bulk', strat_bulk, run_bulk, quick=128, thorough=4800, quick_shards=16),
-    'fresh': Sub('fresh', strat_fresh, run_fresh, quick=4, thorough=16, quick_shards=2),
+    'fresh': Sub('fresh', strat_fresh, run_fresh, quick=1, thorough=2, quick_shards=1),
 }
